@@ -943,6 +943,40 @@ func checkLateRow(e *Env, sp *evSpec, l *evLedger, er *evRow, covers []interval,
 					}
 				}
 			}
+			if strings.HasSuffix(site, "/expired-window-updated") {
+				// was this delivery owed to another late row, one that arrived inside the window's
+				// allowance? Then the expired row did not cause the update, it leaked into it from
+				// the shared row buffer when the update was built (the family of the known finding);
+				// an update that brings nothing but expired rows was caused by one of them (b86dd0e)
+				// (an update re-delivers every group of the window in one batch: look at all of them)
+				for k, ds := range delivered {
+					if k.iv != (interval{r.WS, r.WE}) {
+						continue
+					}
+					for _, d := range ds {
+						if d.D != r.D {
+							continue
+						}
+						var prev *winDelivery
+						for _, p := range ds {
+							if p.Seq < d.Seq && (prev == nil || p.Seq > prev.Seq) {
+								prev = p
+							}
+						}
+						had := map[string]bool{}
+						if prev != nil {
+							for _, id := range prev.IDs {
+								had[id] = true
+							}
+						}
+						for _, id := range d.IDs {
+							if o := l.ByID[id]; o != nil && !had[id] && id != er.ID && o.Late && o.WM < r.WE+sp.AL {
+								site = sp.Kind + "/leaked-into-an-owed-update-of-a-closed-window"
+							}
+						}
+					}
+				}
+			}
 			e.Violate("C02/expired-late-row-changed-result", site, "row %s ts=%s arrived when the watermark %s had passed end+ALLOWEDLATENESS (%s) of window [%s,%s), yet it is aggregated there", er.ID, fmtNS(er.TS), fmtNS(er.WM), fmtNS(r.WE+sp.AL), fmtNS(r.WS), fmtNS(r.WE))
 			break // one report per row; the late-update clause below is judged as well
 		}
